@@ -1,0 +1,28 @@
+package art
+
+// insertPosNode16Lanes and searchNode16Lanes are implemented in node16_arm64.s.
+// They compare all 16 lanes of keys with b, whatever childrenLen says, and
+// return the first matching lane.
+func insertPosNode16Lanes(keys *[16]byte, childrenLen uint8, b byte) int
+
+func searchNode16Lanes(keys *[16]byte, childrenLen uint8, b byte) int
+
+// insertPosNode16 returns the position of the first occupied slot of keys that
+// is greater than b, or -1. The occupied slots come first and are sorted, so a
+// first match at or beyond childrenLen means that no occupied slot matches.
+func insertPosNode16(keys *[16]byte, childrenLen uint8, b byte) int {
+	if idx := insertPosNode16Lanes(keys, childrenLen, b); idx < int(childrenLen) {
+		return idx
+	}
+	return -1
+}
+
+// searchNode16 returns the position of b among the occupied slots of keys, or
+// -1. Slots at or beyond childrenLen may hold zero or stale bytes and must not
+// be reported.
+func searchNode16(keys *[16]byte, childrenLen uint8, b byte) int {
+	if idx := searchNode16Lanes(keys, childrenLen, b); idx < int(childrenLen) {
+		return idx
+	}
+	return -1
+}
